@@ -121,6 +121,46 @@ def _r24a(chk, repo, mod) -> None:
                     bool(os_) and all(o.kind == "for" and isinstance(o.expr, ast.Call) and last_attr(o.expr) == "iter_rendered" for o in os_),
                     "R24a", c, "the lint partial is not built on the rendering produced by iter_rendered for that file", detail=f"{q}: partial rendering",
                 )
+        # the rule pack of every lint call is built from the per-file config of the rendering it lints
+        for c in calls_in(f):
+            rend = rp = None
+            if last_attr(c) == "lint_rendered" and isinstance(c.func, ast.Attribute):
+                rend = c.args[0] if c.args else kwarg(c, "rendered")
+                rp = c.args[1] if len(c.args) > 1 else kwarg(c, "rule_pack")
+            elif last_attr(c) == "partial" and c.args and isinstance(c.args[0], ast.Attribute) and c.args[0].attr == "lint_rendered":
+                rend = c.args[1] if len(c.args) > 1 else kwarg(c, "rendered")
+                rp = c.args[2] if len(c.args) > 2 else kwarg(c, "rule_pack")
+            else:
+                continue
+            chk.count("R24a.lint_sites")
+            st = cfg.stmt_of(c)
+            ok = False
+            why = "rule pack or rendering argument missing"
+            if isinstance(rend, ast.Name) and rp is not None:
+                os_ = origins(cfg, rp, st) if isinstance(rp, ast.Name) else []
+                if isinstance(rp, ast.Call):
+                    from ..cfg import Origin
+
+                    os_ = [Origin(rp, (), "expr", st)]
+                ok = bool(os_)
+                for o in os_:
+                    if not (o.kind == "expr" and isinstance(o.expr, ast.Call) and last_attr(o.expr) == "get_rulepack" and not o.path):
+                        ok, why = False, f"rule pack derives from {o.text()[:60]}, not from get_rulepack(config=<rendering>.config)"
+                        break
+                    e = kwarg(o.expr, "config") or (o.expr.args[0] if o.expr.args else None)
+                    same = (
+                        isinstance(e, ast.Attribute) and e.attr == "config" and isinstance(e.value, ast.Name)
+                        and e.value.id == rend.id
+                        and cfg.reaching().defs_at(o.stmt, rend.id) == cfg.reaching().defs_at(st, rend.id)
+                    )
+                    if not same:
+                        ok = False
+                        why = (
+                            f"rule pack is built from {norm(e) if e is not None else 'no config'!r}, not from the per-file config of the "
+                            f"rendering that is linted ({rend.id}.config): this site selects and configures rules differently from its siblings"
+                        )
+                        break
+            chk.require(ok, "R24a", c, why, detail=f"{q}: rule pack from the rendering's own config")
         # the deferred packet
         for c in calls_in(f):
             if last_attr(c) == "DeferredRenderTask":
@@ -142,6 +182,7 @@ def _r24a(chk, repo, mod) -> None:
                 chk.require(e is not None and norm(e) == "self.config", "R24a", c, "sequence_files is not given the runner's root config", detail=f"{q}: sequence_files config")
     chk.count("R24a.render_sites", n_sites)
     chk.floor("R24a.render_sites", 3)
+    chk.floor("R24a.lint_sites", 3)
     chk.floor("R24a.deferred_packets", 1)
 
 
@@ -476,6 +517,16 @@ def _r24f(chk, repo) -> None:
 from ..selftest import Variant  # noqa: E402
 
 VARIANTS = [
+    Variant("worker-rule-pack-from-root-config", RUNNER,
+            "                rule_pack = linter.get_rulepack(config=rendered.config)\n",
+            "                rule_pack = linter.get_rulepack(config=task.root_config)\n", "R24a", "_apply", "seeded C24-2"),
+    Variant("serial-rule-pack-from-root-config", RUNNER,
+            "            rule_pack = self.linter.get_rulepack(config=rendered.config)\n            yield (\n",
+            "            rule_pack = self.linter.get_rulepack(config=self.config)\n            yield (\n", "R24a", "iter_partials"),
+    Variant("quiet-worker-rule-pack-through-locals", RUNNER,
+            "                rule_pack = linter.get_rulepack(config=rendered.config)\n                return Linter.lint_rendered(rendered, rule_pack, task.fix, None)\n",
+            "                pack_for_file = linter.get_rulepack(config=rendered.config)\n                rule_pack = pack_for_file\n                return Linter.lint_rendered(rendered, rule_pack, task.fix, None)\n",
+            "QUIET", None, "rule pack passed through a second local"),
     Variant("base-error-pickle-loses-stored-pos", "src/sqlfluff/core/errors.py",
             "        self.description = description\n        if pos:",
             "        self.description = description\n        self.pos = pos\n        if pos:", "R24f", "SQLBaseError",
